@@ -31,7 +31,7 @@ func round3Rules() []*Rule {
 		{ID: "ERR-5", Props: []string{"C12", "C19", "C05", "C18", "C04"}, Min: 120,
 			Doc: "an error that may be non-nil does not vanish: on every path from an error-producing call to a return, that error is established nil, returned, handed to a call (wrapped), stored, or — once established non-nil — replaced by another error that is definitely non-nil; an error that is merely compared (`err == io.EOF`) and then replaced by nil is lost",
 			Run: runErr5},
-		{ID: "HDR-raw", Props: []string{"C15", "C08", "C01", "C04"}, Min: 1,
+		{ID: "HDR-raw", Props: []string{"C15", "C08", "C01", "C04", "C14"}, Min: 1,
 			Doc: "the header bytes re-read at the start of a transaction are interpreted by parseHeader and by nothing else (no second, unvalidated reading of header fields such as the in-header database size)",
 			Run: runHdrRaw},
 		{ID: "TOK-LOCAL", Props: []string{"C16"}, Min: 2,
